@@ -538,7 +538,7 @@ def path_of_state(st):
         if e[0] == 'FLOAT':
             fm = FMETH.get(st['_values_'][0], 7)
         if e[0] == 'INT':
-            dt = np.dtype(e[2])
+            dt = np.dtype(e[2] if len(e) > 2 else 'int')
             intw = (dt.itemsize, dt.kind == 'i')
     corners = None
     mbool = None
@@ -993,6 +993,7 @@ def run(ctx):
     ndec = 0
     gained = 0
     ninterned = 0
+    nviol = {}
     for i, c in enumerate(cases):
         res = run_case(c, Pm)
         ctx.note_case(summary(c), nontrivial(c))
@@ -1011,7 +1012,13 @@ def run(ctx):
                 continue
             seen.add(b[0])
             bad_cases.add(i)
-            ctx.fail(signature(c, b, res), c, {'what': b[0], 'detail': b[1], 'path': res['path']})
+            sig = signature(c, b, res)
+            known = lib.finding_for(ctx.prop, sig, ctx.findings) is not None
+            key = '%s/%s/%s/%s' % (sig['what'], sig.get('exc'), sig.get('site'), sig.get('codec'))
+            if not known:
+                nviol[key] = nviol.get(key, 0) + 1
+            if known or nviol[key] <= 5:       # at most 5 replay files per kind of failure
+                ctx.fail(sig, c, {'what': b[0], 'detail': b[1], 'path': res['path']})
         if res['coq'] is not None:
             terms.append(res['coq'])
             idx.append(i)
@@ -1019,6 +1026,7 @@ def run(ctx):
     ctx.traces = len(terms)
     ctx.cov['byte_strings_redecoded_with_real_libraries'] = ndec
     ctx.cov['orig_gained_attrs'] = gained
+    ctx.cov['failing_cases_by_kind'] = nviol
     ctx.cov['terms_with_renamed_float_patterns'] = ninterned
     order = sorted(range(len(terms)), key=lambda j: len(terms[j]))
     nsmall = sum(1 for t in terms if len(t) < 6000)
